@@ -15,7 +15,7 @@ SPEC = dict(
     component="health",
     props_module="Refinery.Props.C30",
     gen_module="Refinery.Gen.Health",
-    quick=dict(cases=2400, len=40, shards=4),
+    quick=dict(cases=1600, len=40, shards=4),
     thorough=dict(cases=64000, len=60, shards=16),
     nontrivial=nontrivial,
     rule="cases = random histories of Register / Unregister / Ready(true|false) / clock advances on a real, started "
